@@ -24,6 +24,7 @@ struct Cmd {
   bool inheritEnv = true;
   bool safeInterrupt = true;
   bool allowMissing = false;
+  bool allowModified = false;        // allow-modified-outputs
   std::string signature;             // explicit signature ("" = computed)
   std::string contents;              // symlink tool
   std::vector<std::string> expected, roots;   // stale-file-removal
